@@ -68,9 +68,13 @@ func (q *Q) Zoekt() query.Q {
 	case "substr":
 		return &query.Substring{Pattern: q.Pat, FileName: q.FN, Content: q.CT, CaseSensitive: q.CS}
 	case "regex":
-		re, err := ParseRegexp(q.Pat)
-		if err != nil {
-			panic(err)
+		re := q.RE
+		if re == nil {
+			var err error
+			re, err = ParseRegexp(q.Pat)
+			if err != nil {
+				panic(err)
+			}
 		}
 		return &query.Regexp{Regexp: re, FileName: q.FN, Content: q.CT, CaseSensitive: q.CS}
 	case "symbol":
